@@ -25,6 +25,7 @@ def cross_compare(ctx, info, rng, fam, hs):
     compared = 0
     full = 0
     diverged_on_choice = 0
+    ended_at_restart = 0
     steps = 0
     for h, (om, osq) in zip(hs, outs):
         if om.get("fatal") or osq.get("fatal"):
@@ -34,6 +35,13 @@ def cross_compare(ctx, info, rng, fam, hs):
         gen_name = [{}, {}]
         ended = False
         for k, (op, sm, ss) in enumerate(zip(h["ops"], om["steps"], osq["steps"])):
+            if op["op"] == "reopen":
+                # a process restart is not a Store-interface call and means different things for the two backends
+                # (SQLite: same rows, throttles reset; memory: nothing to reopen): the direct comparison ends here,
+                # each backend is still compared with the model of its own flavour to the end of the history
+                ended_at_restart += 1
+                ended = True
+                break
             steps += 1
             views = []
             for bi, st in enumerate((sm, ss)):
@@ -109,7 +117,8 @@ def cross_compare(ctx, info, rng, fam, hs):
         if not ended:
             full += 1
     return {"cross_backend_histories_compared": compared, "cross_backend_compared_to_the_end": full,
-            "cross_backend_diverged_on_choice": diverged_on_choice, "cross_backend_steps": steps}
+            "cross_backend_diverged_on_choice": diverged_on_choice, "cross_backend_ended_at_restart": ended_at_restart,
+            "cross_backend_steps": steps}
 
 
 def main(ctx, replay):
